@@ -1082,3 +1082,11 @@ V("polygon equality accepts any vertex of the other polygon in each position", "
   "            if np.any(\n                is_multiple(self.array, np.roll(other.array, i, axis=-2)", "E19.eq", "PolytopeTensor.__eq__")
 V("twin: polygon equality rolls the receiver instead of the argument", "C17", SHAPES, "is_multiple(self.array, np.roll(other.array, i, axis=-2), axis=-1, rtol=EQ_TOL_REL, atol=EQ_TOL_ABS)",
   "is_multiple(np.roll(self.array, i, axis=-2), other.array, axis=-1, rtol=EQ_TOL_REL, atol=EQ_TOL_ABS)", "silent")
+
+
+# ------------------------------------------------------------------------------------------------ the fourth harmonic point (E19.harm, C11)
+_HARM = "    result = l.meet(join(meet(o.join(a), p.join(b)), meet(o.join(b), p.join(a))))"
+V("harmonic_set closes the quadrilateral through c instead of a", "C11", OPS, _HARM, "    result = l.meet(join(meet(o.join(a), p.join(b)), meet(o.join(b), p.join(c))))", "E19.harm", "harmonic_set", quick=True)
+V("harmonic_set returns the diagonal point instead of meeting the line", "C11", OPS, _HARM, "    result = meet(o.join(a), p.join(b))", "E19.harm", "harmonic_set")
+V("twin: harmonic_set with another second point on the line through the auxiliary point", "C11", OPS, "    p = o + 1 / 2 * m.direction", "    p = o + 2 * m.direction", "silent")
+V("twin: harmonic_set with the two diagonal points exchanged", "C11", OPS, _HARM, "    result = l.meet(join(meet(o.join(b), p.join(a)), meet(o.join(a), p.join(b))))", "silent")
